@@ -14,8 +14,12 @@ func FindVertexHasLabelStart(pipe []*gripql.GraphStatement) ([]string, []*gripql
 			break
 		}
 		if i == 0 {
-			if _, ok := step.GetStatement().(*gripql.GraphStatement_V); ok {
+			if v, ok := step.GetStatement().(*gripql.GraphStatement_V); ok {
 				//lookupV = lv
+				if v.V != nil && len(v.V.Values) > 0 {
+					//V(ids) is already a restricted start: a label scan would ignore the ids
+					break
+				}
 			} else {
 				break
 			}
@@ -25,6 +29,8 @@ func FindVertexHasLabelStart(pipe []*gripql.GraphStatement) ([]string, []*gripql
 		case *gripql.GraphStatement_HasLabel:
 			labels = protoutil.AsStringList(s.HasLabel)
 			hasLabelLen = i + 1
+			//only the first hasLabel is folded into the start; later ones stay as filters
+			isDone = true
 		default:
 			isDone = true
 		}
@@ -41,7 +47,11 @@ func FindEdgeHasLabelStart(pipe []*gripql.GraphStatement) ([]string, []*gripql.G
 			break
 		}
 		if i == 0 {
-			if _, ok := step.GetStatement().(*gripql.GraphStatement_E); ok {
+			if e, ok := step.GetStatement().(*gripql.GraphStatement_E); ok {
+				if e.E != nil && len(e.E.Values) > 0 {
+					//E(ids) is already a restricted start: a label scan would ignore the ids
+					break
+				}
 			} else {
 				break
 			}
@@ -51,6 +61,8 @@ func FindEdgeHasLabelStart(pipe []*gripql.GraphStatement) ([]string, []*gripql.G
 		case *gripql.GraphStatement_HasLabel:
 			labels = protoutil.AsStringList(s.HasLabel)
 			hasLabelLen = i + 1
+			//only the first hasLabel is folded into the start; later ones stay as filters
+			isDone = true
 		default:
 			isDone = true
 		}
